@@ -5,8 +5,8 @@ LEVEL = 'exploration'
 RULE = ('bounded exhaustive enumeration over real engine contexts with snapshot/restore: from every stride-th pump step of a '
         'reference handshake (both roles) and 17 scripted data-phase states (idle, unflushed data, record ready, partial header in, '
         'unread application data, crossing records, after close request, peer got close_notify, renegotiation requested by client / '
-        'by server, forced empty record pending with a peer record in flight on either side, the peer close_notify arriving while own data is unflushed / partly sent on either side, close or renegotiation requested while an application record is partly sent), all sequences of the 24 actions {sendrec_ack 1|all, recvrec_ack 1|all, sendapp_ack 1|all, recvapp_ack 1|all, '
-        'flush 0|1, close, renegotiate} x {client, server} that the API allows, to depth d, de-duplicated by a hash of both contexts, '
+        'by server, forced empty record pending with a peer record in flight on either side, the peer close_notify arriving while own data is unflushed / partly sent on either side, close or renegotiation requested while an application record is partly sent), all sequences of the 28 actions {sendrec_ack 1|all, recvrec_ack 1|all, sendapp_ack 1|all, recvapp_ack 1|all, '
+        'flush 0|1, close, renegotiate, sendrec_take (bytes to the transport, no ack yet), sendrec_ack(taken) (the late ack, also on an engine closed meanwhile)} x {client, server} that the API allows, to depth d, de-duplicated by a hash of both contexts, '
         'buffers and FIFOs; 12 configurations = protection mode x buffer layout x {minimum, full} size. Oracle: tp_check() after every '
         'call + position-coded stream comparison at every read. distinct = distinct world states reached; evaluations = transitions executed. '
         'In addition every other TLS check runs the same monitor after each of its calls (random schedules).')
